@@ -115,7 +115,8 @@ def run(ctx) -> list[Inst]:
     if not os.path.exists(REF):
         raise AnalysisError('reference/pinned_ref.py missing')
     with open(REF, encoding='utf-8') as fh:
-        reft = ast.parse(fh.read())
+        from ..normalize import normalize
+        reft = normalize(ast.parse(fh.read()))
     ref = {}
     for n in reft.body:
         if isinstance(n, ast.FunctionDef):
